@@ -336,6 +336,13 @@ def count_distinct_nontrivial(event_files, limit_files=None):
                     last[q] = cur
                 else:
                     cur = None
+                if e["op"] in ("iter_calls", "into_calls"):
+                    # distinct (iterator, adaptor, call sequence, size); non-trivial if there was something to yield
+                    if e.get("n0", 0) > 0:
+                        cs = tuple((r.get("c"), r.get("st")) for r in e.get("res", []))
+                        seen.add(hashlib.blake2b(repr((e.get("kind"), e.get("it"), e.get("adapt"), e.get("k"), cs,
+                                                       e.get("n0"))).encode(), digest_size=12).digest())
+                    continue
                 if e["op"] in WITNESS_OPS or e["op"] in ("clone", "drop", "new"):
                     continue
                 changed = pre != cur
